@@ -433,3 +433,55 @@ Proof. vm_compute. repeat split; reflexivity. Qed.
 Lemma roundtrip_example :
   decode_all [2; 7] (encode_chunks [[104; 105]; []; [13; 10; 48; 13; 10]]) = ([104; 105; 13; 10; 48; 13; 10], 1, []).
 Proof. vm_compute. reflexivity. Qed.
+
+(* ---------- central theorem: executable well-formedness -> the property holds of the model ---------- *)
+Definition wf_C23 (i : val) : bool :=
+  match i with
+  | VL [VZ 1; VB wire; sizes; pieces] => match as_LZ sizes with Some _ => true | None => false end
+  | VL [VZ 2; chunks] =>
+    match as_LB chunks with Some cs => forallb (fun d => blen d <? 2 ^ 64) cs | None => false end
+  | VL [VZ 3; VB line] => true
+  | _ => false
+  end.
+
+Lemma prop_C23_decode_gen wire sizes szs pieces : as_LZ sizes = Some szs ->
+  let i := VL [VZ 1; VB wire; sizes; pieces] in prop_C23 i (run_C23 i) = true.
+Proof.
+  intros Hs. cbn zeta. unfold run_C23, prop_C23. rewrite Hs.
+  pose proof (decode_all_exact szs wire) as A.
+  destruct (ref_decode_all wire) as [[d ok] rest]. destruct (decode_all szs wire) as [[d' e] rm].
+  simpl in A. destruct A as [<- [He0 [He1 Hr]]]. unfold dec_obs.
+  unfold bytes_eqb. rewrite list_Z_eqb_refl. cbn [andb].
+  assert (negb (e =? 0) = true) as -> by lia. cbn [andb].
+  destruct ok.
+  - rewrite (proj2 He1 eq_refl). rewrite (Hr eq_refl). simpl. apply Z.eqb_refl.
+  - destruct (e =? 1) eqn:E1; [apply Z.eqb_eq in E1; apply He1 in E1; discriminate|]. reflexivity.
+Qed.
+
+Lemma prop_C23_encode_gen chunks cs : as_LB chunks = Some cs -> forallb (fun d => blen d <? 2 ^ 64) cs = true ->
+  let i := VL [VZ 2; chunks] in prop_C23 i (run_C23 i) = true.
+Proof.
+  intros Hc Hall. cbn zeta. unfold run_C23, prop_C23. rewrite Hc.
+  assert (H : Forall (fun d => blen d < 2 ^ 64) cs).
+  { rewrite Forall_forall. rewrite forallb_forall in Hall. intros d Hd. specialize (Hall d Hd). lia. }
+  rewrite (ref_roundtrip cs H). unfold bytes_eqb. rewrite list_Z_eqb_refl. reflexivity.
+Qed.
+
+Theorem prop_C23_of_model i : wf_C23 i = true -> kf_C23 i = 0 -> prop_C23 i (run_C23 i) = true.
+Proof.
+  intros Hwf _. unfold wf_C23 in Hwf.
+  destruct i as [z|b|l]; try discriminate.
+  destruct l as [|[tag| |] l]; try discriminate.
+  destruct tag as [|p|p]; try discriminate.
+  destruct p as [[p|p|]|[p|p|]|]; try discriminate.
+  - (* 3 *) destruct l as [|[|line|] [|? ?]]; try discriminate. apply prop_C23_size.
+  - (* 2 *) destruct l as [|chunks [|? ?]]; try discriminate.
+    destruct (as_LB chunks) as [cs|] eqn:Ec; [|discriminate]. apply (prop_C23_encode_gen chunks cs Ec Hwf).
+  - (* 1 *) destruct l as [|[|wire|] [|sizes [|pieces [|? ?]]]]; try discriminate.
+    destruct (as_LZ sizes) as [szs|] eqn:Es; [|discriminate]. apply (prop_C23_decode_gen wire sizes szs pieces Es).
+Qed.
+
+Lemma wf_C23_corpus :
+  wf_C23 (VL [VZ 1; VB [53;13;10;104;101;108;108;111]; VL [VZ 3]; VL [VZ 2]]) = true /\
+  wf_C23 (VL [VZ 2; VL [VB [104;105]; VB []]]) = true /\ wf_C23 (VL [VZ 3; VB []]) = true.
+Proof. vm_compute. repeat split; reflexivity. Qed.
